@@ -21,7 +21,7 @@ func TestVerif(t *testing.T) {
 		h = c14Harness{}
 	case "C10":
 		h = c10Harness{}
-	case "C08APP", "C09APP", "C03APP":
+	case "C08APP", "C09APP", "C03APP", "C01APP":
 		h = appHarness{prop: e.Prop}
 	case "C12APP":
 		h = multiHarness{}
